@@ -1,5 +1,5 @@
 From Coq Require Import ExtrOcamlBasic.
 From GS Require Import Num Loops C14_Model.
 Extraction "c14_model.ml" proto_anchor
-  construct ctor step step_pinned args_of default_opts default_opt_bounds b_pos b_nonneg
+  construct ctor construct_int ctor_int step step_pinned args_of default_opts default_opt_bounds b_pos b_nonneg
   var_of var_factor sill len_scale_vec field_dim spatial_dim len_rescaled int_scale check_all default_rescale.
